@@ -26,3 +26,14 @@ for _f in sorted(glob.glob(os.path.join(os.path.dirname(os.path.abspath(__file__
     for _k, _v in getattr(_m, "PROPS", {}).items():
         PROPS[_k] = _v
     HOOK_COMMITS += getattr(_m, "HOOK_COMMITS", [])
+
+# structural expectations: lean/LachesisVerif/Props/Facts<id>.lean (regenerated facts Gen.Facts<id>*) are part of
+# the property's proof obligations whenever the file exists
+_PROPS_DIR = os.path.join(os.path.dirname(os.path.dirname(os.path.abspath(__file__))), "lean", "LachesisVerif", "Props")
+for _k, _v in PROPS.items():
+    if os.path.exists(os.path.join(_PROPS_DIR, "Facts%s.lean" % _k)):
+        _mod = "LachesisVerif.Props.Facts%s" % _k
+        if _mod not in _v.setdefault("props", []):
+            _v["props"].append(_mod)
+            _v["claim"] = _v.get("claim", "") + (" Structural expectations (Props/Facts%s.lean): unconditional calls and statement orders of the modelled Go functions that no decision kernel covers "
+                                               "are regenerated as Bool facts (go/cmd/extract: hascall / topcall / topassign / before) and their expected values are theorems." % _k)
